@@ -87,6 +87,9 @@ func (c *FnCtx) sev(sc *specCtx, e *SExpr) *Term {
 				return c.sev(sc, l.Expr)
 			}
 		}
+		if t, ok := c.loopGhost[e.Name]; ok {
+			return t
+		}
 		if t := c.lookupLocal(sc, e.Name); t != nil {
 			return t
 		}
@@ -178,6 +181,9 @@ func (c *FnCtx) sev(sc *specCtx, e *SExpr) *Term {
 			return mk("sbyte", SInt, x, i)
 		case c.ts.isSliceSort(x.Sort):
 			r := c.sliceAt(x, i)
+			if strings.HasPrefix(r.Sort, "Pair_") {
+				return r.withGo(x.GoT) // the pair remembers the iter.Seq2 type it came from
+			}
 			if x.GoT != nil {
 				r = r.withGo(elemType(x.GoT))
 			}
@@ -317,6 +323,17 @@ func (c *FnCtx) seqEq(a, b *Term) *Term {
 }
 
 func (c *FnCtx) sevField(sc *specCtx, x *Term, name string, e *SExpr) *Term {
+	if strings.HasPrefix(x.Sort, "Pair_") {
+		ab := c.ts.pairOf[x.Sort]
+		var ta, tb types.Type
+		if n, ok := types.Unalias(x.GoT).(*types.Named); x.GoT != nil && ok && isIterSeq(n) && n.TypeArgs().Len() == 2 {
+			ta, tb = n.TypeArgs().At(0), n.TypeArgs().At(1)
+		}
+		if name == "fst" {
+			return mk("fst_"+x.Sort, ab[0], x).withGo(ta)
+		}
+		return mk("snd_"+x.Sort, ab[1], x).withGo(tb)
+	}
 	if x.GoT == nil {
 		c.specErr(e, "field %s of a value without Go type", name)
 	}
@@ -406,6 +423,14 @@ func (c *FnCtx) sevCall(sc *specCtx, e *SExpr) *Term {
 			}
 			c.unboxFn(x.Sort)
 			return mk("box_"+mangleSort(x.Sort), SInt, x)
+		case "cast":
+			// cast(x, T): the same reference seen at another static type (pointer conversions are the identity)
+			x := c.sev(sc, args[0])
+			t := c.resolveType(args[1].String(), e)
+			if c.ts.sortOf(t) != x.Sort {
+				c.specErr(e, "cast between different sorts %s and %s", x.Sort, c.ts.sortOf(t))
+			}
+			return x.withGo(t)
 		case "tagof":
 			t := c.resolveType(args[0].String(), e)
 			return c.typeTag(t)
@@ -434,6 +459,17 @@ func (c *FnCtx) sevCall(sc *specCtx, e *SExpr) *Term {
 						as = append(as, c.sev(sc, a))
 					}
 					return c.specApplyFunc(sc, fn, nil, as, e)
+				}
+			}
+		}
+		if callee.Args[0].Kind == "ident" {
+			if f, ok := c.eng.specFuncs[callee.Name]; ok && c.findPackage(callee.Args[0].Name) != nil {
+				if _, isVar := sc.env[callee.Args[0].Name]; !isVar {
+					var as []*Term
+					for _, a := range args {
+						as = append(as, c.sev(sc, a))
+					}
+					return c.applySpecFunc(sc, f, as, e)
 				}
 			}
 		}
@@ -613,6 +649,8 @@ func (c *FnCtx) resolveType(s string, e *SExpr) types.Type {
 		return types.Typ[types.Uint8]
 	case "any":
 		return types.NewInterfaceType(nil, nil)
+	case "typetag":
+		return typeTagType
 	case "":
 		c.specErr(e, "empty type")
 	}
@@ -947,3 +985,6 @@ func (c *FnCtx) seqContains(sq, x *Term) *Term {
 	c.smt.axiom(fn+"_self", fmt.Sprintf("(forall ((s %s) (i Int)) (! (=> (and (<= 0 i) (< i (len_%s s))) (%s s (select (arr_%s s) i))) :pattern ((%s s (select (arr_%s s) i)))))", srt, srt, fn, srt, fn, srt), false, fn)
 	return mk(fn, SBool, sq, x)
 }
+
+// typeTagType: the spec-level type of dynamic type tags (sort TypeTag).
+var typeTagType = types.NewNamed(types.NewTypeName(0, nil, "typetag", nil), types.Typ[types.Int], nil)
